@@ -377,7 +377,7 @@ fn shard(ctx: &ShardCtx) -> ShardResult {
             let case = case_at(FIXED_SEED, 0, j, 1, &mut scratch);
             res.count("generated_programs");
             ctx.begin_case(i, &format!("// C17 fixed generated program {j}\n{}", case.src), &res);
-            compile_case(&mut am, &case.src, &format!("fixed generated program {j}"), json!({"fixed_index": j}), &mut res);
+            compile_case(&mut am, &case.src, &format!("fixed generated program {j}"), json!({"fixed_index": j, "source": case.src}), &mut res);
             ctx.end_case();
         } else if !seeds.is_empty() && k < MUT_PER_SHARD {
             // mutants are a fixed enumerated set as well (the unchanged compiler already fails on
@@ -423,7 +423,10 @@ fn replay(v: &Value) -> ShardResult {
         return res;
     }
     let mut am = Amortised::new(&work);
-    let src = if let Some(j) = v.get("fixed_index").and_then(|x| x.as_u64()) {
+    let src = if let Some(text) = v.get("source").and_then(|x| x.as_str()) {
+        // the recorded text (the generator may have changed since the witness was recorded)
+        text.to_string()
+    } else if let Some(j) = v.get("fixed_index").and_then(|x| x.as_u64()) {
         let mut scratch = ShardResult::default();
         case_at(FIXED_SEED, 0, j, 1, &mut scratch).src
     } else {
